@@ -101,15 +101,22 @@ def make_sim(cs, res, stream_name, watch_modules, watch_classes, fault=None):
 class patched_mp:
     """Route a module's `multiprocessing` attribute through the simulated pool."""
 
-    def __init__(self, module, sim):
+    def __init__(self, module, sim, more_modules=()):
         self.module, self.sim = module, sim
+        self.modules = [module] + [m for m in more_modules if m is not module]
 
     def __enter__(self):
-        self.saved = getattr(self.module, "multiprocessing", None)
-        if self.saved is not None:
-            self.module.multiprocessing = self.sim.module()
+        # every watched module that imported `multiprocessing` gets the simulated one (the pool may live in
+        # any of them after a refactor)
+        self.saved_mp = []
+        for m in self.modules:
+            cur = getattr(m, "multiprocessing", None)
+            if cur is not None:
+                self.saved_mp.append((m, cur))
+                m.multiprocessing = self.sim.module()
+        self.saved = True
         # the other standard way to get worker processes
-        self.fut = patched_futures(self.sim, [self.module])
+        self.fut = patched_futures(self.sim, self.modules)
         self.fut.__enter__()
         # the machine the code believes it runs on: the number of CPUs is part of the simulated configuration
         import os as _os
@@ -133,8 +140,8 @@ class patched_mp:
         for holder, name, val in self.os_saved:
             setattr(holder, name, val)
         self.fut.__exit__()
-        if self.saved is not None:
-            self.module.multiprocessing = self.saved
+        for m, cur in self.saved_mp:
+            m.multiprocessing = cur
 
 
 def pool_reach(sim, res):
